@@ -79,6 +79,23 @@ Definition sugar_tree (s : sugar) (arg : sx) : sx :=
   end.
 
 (* pretty_scalar: `-1` is the sign followed by the digits *)
+(* the shapes whose echo is read back as the same tree *)
+Definition fused (e : texpr) : bool :=
+  match e with
+  | XBin Mul (XScalar _ _) (XUnit _) | XBin Mul (XScalar _ _) (XIdent _) => true
+  | _ => false
+  end.
+
+(* typed_ast.rs is_literal_chain: a literal, or literals joined by the same operator *)
+Fixpoint lit_add (e : texpr) : bool :=
+  match e with XScalar _ _ => true | XBin Add a b => lit_add a && lit_add b | _ => false end.
+Fixpoint lit_mul (e : texpr) : bool :=
+  match e with XScalar _ _ => true | XBin Mul a b => lit_mul a && lit_mul b | _ => false end.
+(* a sum / product on the right is printed without parentheses only in a chain of plain literals
+   (and a fused product `2 meter`, which binds tighter than the operator) *)
+Definition bare_add (a b : texpr) : bool := is_add b && lit_add a && lit_add b.
+Definition bare_mul (a b : texpr) : bool := is_mul b && (fused b || (lit_mul a && lit_mul b)).
+
 Definition num_tree (neg : bool) (d : str) : sx := if neg then SNeg (SNum d) else SNum d.
 
 Definition wrapm (m : pmode) (t : sx) : sx := match m with Plain => t | _ => SParen t end.
@@ -109,14 +126,14 @@ Fixpoint echo_tree (m : pmode) (e : texpr) {struct e} : sx :=
             | XScalar neg d, XIdent n => SIMul (num_tree neg d) (SIdent n)
             | _, _ =>
                 SBin TMultiply (if is_power a || is_mul a then echo_tree Plain a else echo_tree Liberal a)
-                               (if is_power b || is_mul b then echo_tree Plain b else echo_tree Liberal b)
+                               (if is_power b || bare_mul a b then echo_tree Plain b else echo_tree Liberal b)
             end
         | Div =>
             SBin TDivide (if is_power a || is_mul a then echo_tree Plain a else echo_tree Liberal a)
                          (if is_power b then echo_tree Plain b else echo_tree Liberal b)
         | Add =>
             SBin TPlus (if is_power a || is_mul a || is_add a then echo_tree Plain a else echo_tree Liberal a)
-                       (if is_power b || is_mul b || is_add b then echo_tree Plain b else echo_tree Liberal b)
+                       (if is_power b || is_mul b || bare_add a b then echo_tree Plain b else echo_tree Liberal b)
         | Sub =>
             SBin TMinus (if is_power a || is_mul a then echo_tree Plain a else echo_tree Liberal a)
                         (if is_power b || is_mul b then echo_tree Plain b else echo_tree Liberal b)
@@ -180,12 +197,6 @@ Fixpoint echo_items (ec : texpr -> sx) (l : list (texpr * option str * str)) : l
 (* Expression::pretty_print, as tokens *)
 Definition pp (e : texpr) : list token := pr (echo_tree Plain e).
 
-(* the shapes whose echo is read back as the same tree *)
-Definition fused (e : texpr) : bool :=
-  match e with
-  | XBin Mul (XScalar _ _) (XUnit _) | XBin Mul (XScalar _ _) (XIdent _) => true
-  | _ => false
-  end.
 
 Fixpoint printable_t (e : texpr) : bool :=
   match e with
@@ -197,9 +208,9 @@ Fixpoint printable_t (e : texpr) : bool :=
       | Mul =>
           match a, b with
           | XScalar neg _, XUnit _ | XScalar neg _, XIdent _ => negb neg
-          | _, _ => negb (is_mul b) || fused b       (* a product on the right loses its parentheses *)
+          | _, _ => negb (bare_mul a b) || fused b   (* a chain of literal factors on the right loses its parentheses *)
           end
-      | Add => negb (is_add b)                       (* a sum on the right loses its parentheses *)
+      | Add => negb (bare_add a b)                   (* a chain of literal summands on the right loses its parentheses *)
       | _ => true
       end
   | XCall _ args => forallb printable_t args
